@@ -65,10 +65,13 @@ func newWorker(wc *workerConfig) *worker {
 func (w *worker) run(ctx context.Context) error {
 	st, err := w.getPipe(ctx)
 	if err != nil {
+		// the worker is over: say so, syncWorkers starts a stopped worker again
+		atomic.StoreInt32(&w.state, wsStopped)
 		return err
 	}
 	qr, err := w.prepareQuery(st.Destination)
 	if err != nil {
+		atomic.StoreInt32(&w.state, wsStopped)
 		return err
 	}
 
